@@ -4,7 +4,8 @@ import common, zoo as zoolib, filelevel, workloads, iocommon
 from common import Pair, proof_stage, rebuild_tools, build_pqh, build_zoo, Lock, TRUSTED_BASE
 
 MODULE = "PQ.Props.C10"
-THEOREMS = ["PQ.C10." + t for t in ("source_sites_propagate", "source_calls_propagate", "next_reports", "source_inventory_covers")]
+THEOREMS = ["PQ.C10." + t for t in ("source_sites_propagate", "source_calls_propagate", "next_reports", "source_inventory_covers",
+    "next_within_rowgroup_src_indep", "inside_not_touching", "nextF_not_touching", "nextF_fault", "next_load_error_eq_fault")]
 
 
 def phases(trace):
@@ -31,6 +32,20 @@ def run(chk):
     traces = common.chunked_parallel(pair.impl, ["zoo-read %s %s trace" % (c.zoo.name, c.impl_file) for c in cases], workers=8, chunk=50)
     ops, meta = [], []
     tie_breaks, prop_fail = [], []
+    # the fault model (PQ/Model/Fault.lean): the outcome depends only on which source-touching API call fails
+    # (0 = constructor, j = the j-th Next that loads a row group); one model run per such call and workload
+    fault_ops, fault_idx, loadcalls = [], {}, {}
+    for ci, (c, t) in enumerate(zip(cases, traces)):
+        m = re.search(r"trace=(\S+)", t)
+        ph = phases(m.group(1)) if m else []
+        js = sorted(set(int(x[4:]) for x in ph if x != "open"))
+        loadcalls[ci] = js
+        for tc in range(len(js) + 1):
+            fault_idx[(ci, tc)] = len(fault_ops)
+            fault_ops.append("read-fault %s %s %s %d" % (c.zoo.cols_text, c.impl_file, (",".join("%s=%s" % kv for kv in c.dtab.items()) or "-"), tc))
+    fault_model = common.chunked_parallel(pair.model, fault_ops, workers=8, chunk=40)
+    case_index = {id(c): ci for ci, c in enumerate(cases)}
+    model_checked = 0
     for c, t in zip(cases, traces):
         if filelevel.strip_calls(t) != c.model_read:
             tie_breaks.append({"case": c.key()[:400], "what": "reader", "impl": filelevel.strip_calls(t)[:200], "model": c.model_read[:200]})
@@ -66,6 +81,15 @@ def run(chk):
             want = "open=ok nexts=%d err=err and the first %d rows correct" % (j - 1, j - 1)
         if not ok and with_data and got == filelevel.expected_read(c):
             ok = True            # the data arrived in full: a complete and correct read is as good as a reported error
+        # exact tie with the fault model: the line the generated reader prints = readAllF at the touching-call index
+        ci = case_index[id(c)]
+        tc = 0 if ph == "open" else 1 + loadcalls[ci].index(int(ph[4:]))
+        want_model = fault_model[fault_idx[(ci, tc)]]
+        model_checked += 1
+        if got != want_model and not (with_data and got == filelevel.expected_read(c)):
+            if len(tie_breaks) < 40:
+                tie_breaks.append({"case": c.key()[:400] + " fail=%d (during %s, touching call %d)" % (k, ph, tc), "what": "fault model (readAllF)",
+                                   "impl": got[:200], "model": want_model[:200]})
         if not ok:
             outcome = "panic" if "panic" in got else got.split(" recs=")[0]
             prop_fail.append({"case": c.key()[:2000] + " fail%s=%d (during %s)" % ("d" if with_data else "", k, ph), "key": {"phase": "open" if ph == "open" else "next", "outcome": outcome[:60], "codec": c.codec, "with_data": with_data},
@@ -78,9 +102,9 @@ def run(chk):
         "evaluations": len(ops), "distinct_nontrivial": len(nontrivial), "exhaustive": bool(thorough), "workloads": len(cases),
         "rule": "for every workload (8 structs x 3 codecs) a fault-free traced run maps each Read/Seek call index k of the source to the API call it occurs in (open, j-th Next); then the source fails at call k for every k (thorough) / every k < 120 and every 5th beyond (quick); the constructor must fail for faults during open, otherwise Next must be false with Error() != nil after exactly the first j-1 correct rows; never a panic; the same with the error value io.EOF; the same with a failing Read that delivers its bytes together with the error (then a complete correct read is also accepted); non-trivial = distinct (workload, k) with the predicted outcome",
         "samples": [ops[0][:160], ops[len(ops) // 2][:160]],
-        "tie": "reader model = generated reader on the fault-free run; per-k outcome = prediction from the fault-free trace",
+        "tie": "reader model = generated reader on the fault-free run; per-k outcome = prediction from the fault-free trace; exact: the generated reader's result line under a fault at call k = the fault model's (readAllF, PQ/Model/Fault.lean) at the source-touching API call that call k belongs to",
         "tie_disagreements": len(tie_breaks), "property_failures_on_impl": len(prop_fail),
-        "traces_validated_against_impl": len(ops),
+        "traces_validated_against_impl": len(ops), "fault_model_runs": len(fault_ops), "fault_model_comparisons": model_checked,
     })
     return common.verdict(chk, cov, pr, prop_fail, tie_breaks, "C10", "reader model vs generated reader", [
         "call-site inventories are syntactic (go/ast)", "thrift library's error propagation is trusted (exercised by the fault runs)"])
